@@ -430,7 +430,7 @@ func (v *Verifier) verifyFunc(fn *ssa.Function, con *Contract) (res *FuncResult)
 		}
 	}
 	for _, cl := range con.Sinks {
-		if !cl.matched {
+		if !cl.matched && !cl.Optional {
 			c.stale = append(c.stale, fmt.Sprintf("%s:%d: sink clause matches no call site: call %s #%d", cl.File, cl.Line, cl.Callee, cl.Ord))
 		}
 	}
